@@ -3,7 +3,8 @@ EXTENDS EndToEnd, Json
 NoNext == FALSE /\ UNCHANGED vars
 EmitScn == pc = "start" => PrintT(<<"SCN", ToJson([prog |-> prog])>>)
 Behs == {"echo", "typed", "typednull", "unreg", "exc"}
-BehsSingle == Behs \cup {"typedsrv", "unregsrv"}      \* error codes inside the reserved server-error range -32099..-32000
+BehsSingle == Behs \cup {"typedsrv", "unregsrv", "_echo"}      \* error codes inside the reserved server-error range -32099..-32000;
+                                                                 \* _echo: echo registered under a name that starts with an underscore
 Args == {"none", "pos", "named", "posdict"}
 Cl(b, a, n) == [beh |-> b, args |-> a, notif |-> n]
 P(nt, cs, ig, st, ck, dk) == [notation |-> nt, calls |-> cs, idgen |-> ig, strict |-> st, ck |-> ck, dk |-> dk]
@@ -15,7 +16,7 @@ Combos == {<<"sequential", TRUE, "sync", "sync">>, <<"random", TRUE, "async", "a
 CallsFull  == {Cl(b, a, n) : b \in Behs, a \in Args, n \in BOOLEAN}
 CallsSmall == {Cl("echo", "posdict", FALSE), Cl("echo", "pos", FALSE), Cl("echo", "named", FALSE), Cl("typed", "none", FALSE), Cl("exc", "pos", FALSE),
                Cl("echo", "pos", TRUE), Cl("exc", "none", TRUE)}
-CallsSrv == {Cl("typedsrv", "pos", FALSE), Cl("unregsrv", "none", FALSE), Cl("echo", "pos", FALSE)}
+CallsSrv == {Cl("typedsrv", "pos", FALSE), Cl("unregsrv", "none", FALSE), Cl("echo", "pos", FALSE), Cl("_echo", "named", FALSE)}
 AllowedIn(nt, c) == CASE nt = "batch_proxy"   -> ~c.notif
                       [] nt = "batch_getitem" -> ~c.notif /\ c.args # "named"
                       [] OTHER -> TRUE
@@ -28,7 +29,7 @@ InitE2E(n) ==
           \/ \E c1 \in CallsFull : AllowedIn(nt, c1) /\ InitWith(P(nt, <<c1>>, cb[1], cb[2], cb[3], cb[4]))
           \/ \E c1 \in CallsFull, c2 \in CallsFull : AllowedIn(nt, c1) /\ AllowedIn(nt, c2)
                 /\ InitWith(P(nt, <<c1, c2>>, cb[1], cb[2], cb[3], cb[4]))
-          \/ \E c1 \in CallsSrv, c2 \in CallsSrv : InitWith(P(nt, <<c1, c2>>, cb[1], cb[2], cb[3], cb[4]))
+          \/ \E c1 \in CallsSrv, c2 \in CallsSrv : AllowedIn(nt, c1) /\ AllowedIn(nt, c2) /\ InitWith(P(nt, <<c1, c2>>, cb[1], cb[2], cb[3], cb[4]))
           \/ \E m \in 3..n : \E s \in [1..m -> CallsSmall] : (\A j \in 1..m : AllowedIn(nt, s[j]))
                 /\ InitWith(P(nt, s, cb[1], cb[2], cb[3], cb[4]))
 InitQuick == InitE2E(3)
